@@ -17,7 +17,7 @@ use sha1_smol;
 use std::collections::HashMap;
 use std::convert::{TryFrom, TryInto};
 use std::fs;
-use std::path::{Path, PathBuf};
+use std::path::{Component, Path, PathBuf};
 
 /// Metainfo file (also known as .torrent; see [BEP3](https://www.bittorrent.org/beps/bep_0003.html#metainfo%20files))
 /// describe all data required to find download file/files from peer-to-peer network.
@@ -347,7 +347,7 @@ impl Metainfo {
     /// Return vector with information which pieces contain which files.
     pub fn file_piece_ranges(&self) -> Vec<(PathBuf, PiecePos, PiecePos)> {
         let dir = match self.files.len() > 1 {
-            true => PathBuf::from(&self.name),
+            true => Self::sanitize_path(&self.name),
             false => PathBuf::new(),
         };
 
@@ -356,7 +356,7 @@ impl Metainfo {
 
         for File { length, path } in self.files.iter() {
             ranges.push((
-                dir.join(path),
+                dir.join(Self::sanitize_path(path)),
                 self.piece_pos(pos),
                 self.piece_pos(pos + *length as usize),
             ));
@@ -365,6 +365,18 @@ impl Metainfo {
         }
 
         ranges
+    }
+
+    /// Names and paths come from (possibly hostile) torrent file, so keep only their normal
+    /// components. Root, prefix, "." and ".." are dropped to stay inside download directory.
+    fn sanitize_path(path: &str) -> PathBuf {
+        Path::new(path)
+            .components()
+            .filter_map(|component| match component {
+                Component::Normal(part) => Some(part),
+                _ => None,
+            })
+            .collect()
     }
 
     fn piece_pos(&self, pos: usize) -> PiecePos {
